@@ -71,6 +71,13 @@ var externalPureFuncs = map[string]bool{
 
 func externalIsTop(f *ssa.Function) bool {
 	name := f.String()
+	// Error()/String() of library types are observers (trusted: listed in evidence)
+	if f.Signature.Recv() != nil && f.Signature.Params().Len() == 0 {
+		switch f.Name() {
+		case "Error", "String", "GoString", "Unwrap":
+			return false
+		}
+	}
 	if externalPureFuncs[name] {
 		return false
 	}
